@@ -90,10 +90,13 @@ def status_value(code, form):
 # ---------------------------------------------------------------------------
 class Cell:
     __slots__ = ('stack', 'code', 'form', 'method', 'mask', 'kind', 'cl', 'ct', 'cookies', 'raw', 'klass',
-                 'falsy', 'chunks', 'seed')
+                 'falsy', 'chunks', 'seed', 'order')
 
     def __init__(self, stack, code, form, method, mask, kind=None, cl='unset', ct=False, cookies=0, raw=0,
-                 klass='std', falsy=0, chunks=(b'ab', b'c'), seed=0):
+                 klass='std', falsy=0, chunks=(b'ab', b'c'), seed=0, order='fwd'):
+        # order: 'fwd' text,data,media | 'rev' media,data,text | 'rmid' like rev with render_body() called after every
+        # assignment (a signing / ETag middleware does that) | 'rfirst' render_body() right after the first assignment
+        self.order = order
         self.stack, self.code, self.form, self.method, self.mask, self.kind = stack, code, form, method, mask, kind
         self.cl, self.ct, self.cookies, self.raw, self.klass = cl, ct, cookies, raw, klass
         self.falsy, self.chunks, self.seed = falsy, tuple(chunks), seed
@@ -138,7 +141,7 @@ class Cell:
                 % (self.stack, self.method, status_value(self.code, self.form), ','.join(src),
                    (' stream=%s%r' % (self.kind, list(self.stream_chunks()))) if self.mask & STREAM else '',
                    ' falsy=%d' % self.falsy if self.falsy else '', self.cl, self.ct, self.cookies, self.raw,
-                   self.klass))
+                   self.klass) + ('' if self.order == 'fwd' else ' assignment-order=%s' % self.order))
 
 
 # ---------------------------------------------------------------------------
@@ -244,14 +247,16 @@ class AsgiSub(falcon.asgi.Response):
 
 class _WsgiResource:
     def on_get(self, req, resp):
-        _Holder.fill(resp)
+        for _ in _Holder.fill(resp) or ():
+            resp.render_body()
 
     on_post = on_head = on_get
 
 
 class _AsgiResource:
     async def on_get(self, req, resp):
-        _Holder.fill(resp)
+        for _ in _Holder.fill(resp) or ():
+            await resp.render_body()
 
     on_post = on_head = on_get
 
@@ -277,12 +282,16 @@ def make_filler(cell, e, stream):
         resp.status = status_value(cell.code, cell.form)
         if cell.ct:
             resp.content_type = PRESET_CT
-        if cell.mask & TEXT:
-            resp.text = cell.text()
-        if cell.mask & DATA:
-            resp.data = cell.data()
-        if cell.mask & MEDIA:
-            resp.media = cell.media()
+        steps = [(TEXT, 'text', cell.text), (DATA, 'data', cell.data), (MEDIA, 'media', cell.media)]
+        if cell.order != 'fwd':
+            steps.reverse()
+        first = True
+        for bit, attr, value in steps:
+            if cell.mask & bit:
+                setattr(resp, attr, value())
+                if cell.order == 'rmid' or (cell.order == 'rfirst' and first):
+                    yield 'render'
+                first = False
         n = preset_cl(cell, e)
         if cell.mask & STREAM:
             if cell.kind == 'sse':
@@ -661,7 +670,27 @@ def gen_cells(tier, seed):
                                 cells.append(Cell(stack, code, form, method, STREAM, kind, cl=cl, klass=klass,
                                                   chunks=shape, seed=seed))
     nc = len(cells) - na - nb
-    return cells, {'matrix': na, 'falsy_values': nb, 'stream_shapes': nc}
+    # part D: assignment order and rendering between assignments (the precedence is a property of the final
+    # values, not of the order in which they were assigned or of what was rendered on the way)
+    for order in ('rev', 'rmid', 'rfirst'):
+        for mask in masks:
+            if popcount(mask & (TEXT | DATA | MEDIA)) < 2 or mask & STREAM:
+                continue
+            for falsy in (0, DATA, TEXT):
+                if falsy & ~mask:
+                    continue
+                for klass in ('std', 'sub'):
+                    for code, form in ((200, 'int'), (204, 'int'), (404, 'enum')):
+                        if code == 204 and order != 'rev' and mask & MEDIA:
+                            # an application that itself calls render_body() on a 204 with media has asked for the
+                            # media type to be filled in: whose Content-Type that is, the statement does not say
+                            continue
+                        for method in ('GET', 'HEAD'):
+                            for stack in ('wsgi', 'asgi'):
+                                cells.append(Cell(stack, code, form, method, mask, None, klass=klass, falsy=falsy,
+                                                  seed=seed, order=order))
+    nd = len(cells) - na - nb - nc
+    return cells, {'matrix': na, 'falsy_values': nb, 'stream_shapes': nc, 'assignment_orders': nd}
 
 
 def run_batch(shard, rep):
